@@ -145,6 +145,11 @@ pub fn run(ctx: &Ctx, reg: &Registry) -> i32 {
                     let sd = ctx.seed ^ (i << 7) ^ j;
                     check(&mut acc, s, &case, Source::Ov, if j % 2 == 0 { Script::Bits(sd) } else { Script::Coin(sd) });
                 }
+                for (pi, pol) in policies().into_iter().enumerate() {
+                    if (i as usize + pi) % 3 == 0 {
+                        check(&mut acc, s, &case, Source::Ov, pol);
+                    }
+                }
                 if case.payload.json_representable() {
                     check(&mut acc, s, &case, Source::Json, Script::Continue);
                     check(&mut acc, s, &case, Source::Json, Script::Coin(ctx.seed ^ i));
